@@ -40,7 +40,9 @@ CLAIMS['C16'] = ('proof',
     "and no mutable static/thread-local state read by the parser is left changed on a normal or exceptional exit (the result "
     "does not depend on earlier calls); pure std::string out-parameters are written on every successful return; begin/end "
     "cursor pairs are ordered when used as ranges; whitespace is excluded in front of the delimiters of a tag head / header "
-    "(a structural part of the faithfulness clause); the backward trim of a text content removes whitespace bytes only (its "
+    "(a structural part of the faithfulness clause); a token [begin, end) consists of exactly the bytes of its scan loop (neither the "
+    "delimiter that ends the scan nor a consumed delimiter the scan would stop at, no scanned byte lost), children are only appended in "
+    "parse order and a property is stored under the name/value pair one parseProp call produced; the backward trim of a text content removes whitespace bytes only (its "
     "condition evaluated for every byte value, plain char signed); writes through self-allocated buffers stay inside them. Obligations = one per "
     "analysed function and clause; all must be discharged. The faithfulness clause (returned tree equals the generating "
     "tree) is a value-level property and is not decided.",
